@@ -848,6 +848,7 @@ class Extracted:
         self.counts = {}
         self.text = ""
         self.linemap = []    # (first_line, last_line, fn_name, label)
+        self.probes = []
 
 
 def apply_rewrites(toks, rules, counts, ctx):
@@ -894,7 +895,7 @@ def apply_rewrites(toks, rules, counts, ctx):
     return toks
 
 
-def build_unit(repo, unit, spec, prelude_texts):
+def build_unit(repo, unit, spec, prelude_texts, probe=False):
     """unit: dict(name, items=[{fn, file, impl?, parent_fn?, emit_name?, rewrites:[...], wrap?}])"""
     ex = Extracted()
     src_cache = {}
@@ -962,6 +963,23 @@ def build_unit(repo, unit, spec, prelude_texts):
         out += "\n" + post + "\n"
         item_last = out.count("\n")
         ex.linemap.append((item_first, item_last, name, "body"))
+        if probe and not it.get("block") and not pre and name in spec.fn:
+            # reachability twin: same signature, same requires, `ensures false` -- must be refuted
+            tw = "".join(t.text for t in sp)
+            tw = re.sub(r"\bfn\s+%s\b" % re.escape(it["fn"] if "rename_fn" not in str(rules) else name), "fn %s__probe" % name, tw, count=1)
+            m = re.search(r"/\*@%s:contract\{\*/(.*?)/\*@\}\*/" % re.escape(name), tw, re.S)
+            if m:
+                c = m.group(1)
+                if re.search(r"\bensures\b", c):
+                    c2 = re.sub(r"\bensures\b", "ensures false,", c, count=1)
+                else:
+                    dm = re.search(r"\bdecreases\b", c)
+                    c2 = (c[:dm.start()] + " ensures false,\n" + c[dm.start():]) if dm else (c.rstrip().rstrip(",") + ",\n ensures false,\n")
+                tw = tw[:m.start(1)] + c2 + tw[m.end(1):]
+                first = out.count("\n") + 1
+                out += "// ---- reachability probe for %s\n" % name + tw + "\n"
+                ex.linemap.append((first, out.count("\n"), name + "__probe", "body"))
+                ex.probes.append(name)
         for k, v in counts.items():
             ex.counts[k] = ex.counts.get(k, 0) + v
         diff = "".join(difflib.unified_diff(original.splitlines(True), verified_plain.splitlines(True),
